@@ -128,6 +128,65 @@ func clustersim(args []string) error {
 		validEpochs = 1
 	}
 
+	if *kind == "lostack" {
+		// strict stage: an entry committed by the leader L with the ack of follower A only (B is cut off);
+		// A is killed before it can learn the new commit index, then L; B is reconnected and A restarted:
+		// A's WAL holds the acknowledged entry above its persisted commit index, and the group of A and B
+		// must keep it (A wins the election with the longer log).
+		h.add(trace.M{"ev": "reset", "weak": false, "st": cur})
+		ld := s.leader()
+		if ld == 0 {
+			return env("no leader")
+		}
+		fa, fb := s.survivors(ld)[0], s.survivors(ld)[1]
+		do := func(node int, op zop, to time.Duration) bool {
+			c, err := dialResp(cl.redisPort(node), 2*time.Second)
+			if err != nil {
+				return false
+			}
+			defer c.close()
+			id := h.newID()
+			h.inv(id, op)
+			v, err := c.do(to, op.args()...)
+			if n, ok := replyInt(v); err == nil && ok {
+				h.ok(id, n)
+				return true
+			}
+			h.fail(id, err)
+			return false
+		}
+		if !do(ld, zop{"incr", "s1", 0}, 3*time.Second) {
+			return env("warm-up write failed")
+		}
+		cl.kids[fb].send("pause")
+		if ln := cl.kids[fb].waitLine(3*time.Second, "PAUSED"); ln != "PAUSED" {
+			return env("pause failed")
+		}
+		okAck := do(ld, zop{"incr", "s1", 0}, 3*time.Second) && do(ld, zop{"lpush", "l1", 1888}, 3*time.Second)
+		cl.kids[fa].kill9() // at once: before the next heartbeat tells A the new commit index
+		cl.kids[ld].kill9()
+		counts["acked_with_one_follower"] = 0
+		if okAck {
+			counts["acked_with_one_follower"] = 1
+		}
+		cl.kids[fb].send("resume")
+		cl.kids[fb].waitLine(3*time.Second, "RESUMED")
+		if _, res, err := s.restart(fa); err != nil || res != "ready" {
+			return env("follower did not restart")
+		}
+		if cl.waitWritable(60*time.Second, []int{fa, fb}) == 0 {
+			return env("the two remaining replicas did not elect a leader")
+		}
+		if _, res, err := s.restart(ld); err != nil || res != "ready" {
+			return env("old leader did not restart")
+		}
+		if !cl.settle(90*time.Second) || !cl.readAll(h) {
+			return env("no settle")
+		}
+		h.add(trace.M{"ev": "settle"})
+		validEpochs = 1
+	}
+
 	if *kind == "staleread" {
 		// isolate stage of c04-leader-local-read-after-deposition: the leader is cut off, the other two
 		// elect a new leader and commit an INCR; until the old leader notices (check-quorum) it still
